@@ -207,7 +207,20 @@ impl Lock {
             b.cks = Some(nmea_ref::xor(&b.body()) ^ 0x21);
             b.line()
         } else {
-            b"!AIVDM,2,x,1,A,PPPP;,0*00".to_vec()
+            match (&self.m.st, self.ctr % 3) {
+                // malformed (empty payload / fill count 6) behind a readable opener or next-fragment header
+                (reasm_ref::St::Open { id, n, .. }, 1) => {
+                    let mut b = Build::simple((*n).max(2), 1, *id, b"A", b"", 0);
+                    b.payload.clear();
+                    b.line()
+                }
+                (reasm_ref::St::Open { id, last, n, .. }, 2) => {
+                    let mut b = Build::simple(*n, last.saturating_add(1), *id, b"A", &uniq_payload(self.ctr), 0);
+                    b.fill = "6".into();
+                    b.line()
+                }
+                _ => b"!AIVDM,2,x,1,A,PPPP;,0*00".to_vec(),
+            }
         };
         rep.eval();
         let sc = reasm_ref::state_class(&self.m.st);
